@@ -8,7 +8,8 @@
 (* different hosts.                                                        *)
 EXTENDS WSDialMC
 
-CONSTANTS Proxies, HookSets, Creds, CReplyKinds, HostForms, WithHist
+CONSTANTS Proxies, HookSets, Creds, CReplyKinds, HostForms, WithHist,
+          HostOvs   \* Host header overrides of the caller: subset of {"none", "same", "other"}
 
 HK(s) == CASE s = "c" -> << FALSE, TRUE, FALSE >> [] s = "ct" -> << FALSE, TRUE, TRUE >>
            [] s = "n" -> << TRUE, FALSE, FALSE >> [] s = "nt" -> << TRUE, FALSE, TRUE >>
@@ -43,9 +44,17 @@ CReplyOf(k) ==
     [] k = "301" -> [mode |-> "status", status |-> 301]
     [] OTHER -> [mode |-> "none", status |-> 0]
 
+(* The caller's Host override (requestHeader["Host"]) names the URL's own host or ANOTHER host                 *)
+(* (other.example.test, one of the names the "other" certificate is valid for): it changes the Host header of   *)
+(* the request and nothing else - CONNECT target, SNI and the name the certificate is verified for remain the   *)
+(* URL's host on every dial path.                                                                                *)
+HostOv(k, u) ==
+  CASE k = "same"  -> << Hdr("Host", HostHdr(u)) >>
+    [] k = "other" -> << Hdr("Host", "other.example.test") >>
+    [] OTHER       -> << >>
 Cells(c) ==
-  { << Dial(U(s, h), << >>, GoodReply, CReplyOf(cr), ce, NoFault, FALSE) >> :
-      s \in {"ws", "wss"}, h \in Hosts,
+  { << Dial(U(s, h), HostOv(ho, U(s, h)), GoodReply, CReplyOf(cr), ce, NoFault, FALSE) >> :
+      s \in {"ws", "wss"}, h \in Hosts, ho \in HostOvs,
       cr \in (IF Proxied(c) THEN CReplyKinds ELSE {"ok"}),
       ce \in {"valid", "other", "untrusted"} }
 
@@ -56,7 +65,20 @@ Hist(c) ==
        Dial(U(s2, HostB), << >>, GoodReply, OkCReply, ce, NoFault, FALSE) >> :
       s2 \in {"wss"}, ce \in {"valid", "other", "untrusted"} }
 
+(* Histories on ONE Dialer value through a proxy with credentials: a dial that fails in the proxy stage (refused  *)
+(* CONNECT / SOCKS request, proxy closes) or succeeds, then a dial to another host: each dial has to satisfy the  *)
+(* single-dial obligations on its own (one CONNECT with Proxy-Authorization iff the proxy URL has a password).    *)
+Hist2(c) ==
+  IF ~Proxied(c) \/ ~c.puser THEN {}
+  ELSE { << Dial(U(s1, HostA), << >>, GoodReply, CReplyOf(cr1), "valid", NoFault, FALSE),
+            Dial(U(s2, HostB), << >>, GoodReply, OkCReply, "valid", NoFault, FALSE) >> :
+           s1 \in {"ws", "wss"}, s2 \in {"ws", "wss"}, cr1 \in {"407", "500", "none", "ok"} }
+         \cup { << Dial(U("ws", HostA), << >>, GoodReply, CReplyOf("407"), "valid", NoFault, FALSE),
+                  Dial(U("ws", HostA), << >>, GoodReply, CReplyOf("none"), "valid", NoFault, FALSE),
+                  Dial(U(s3, HostB), << >>, GoodReply, OkCReply, "valid", NoFault, FALSE) >> : s3 \in {"ws", "wss"} }
+
 MCDials(c) ==
-  { x \in Cells(c) : x[1].cert = "valid" \/ (LibBackendTLS(c, x[1]) /\ CReplyOK(x[1])) }
-  \cup (IF WithHist THEN { x \in Hist(c) : LibBackendTLS(c, x[2]) \/ x[2].cert = "valid" } ELSE {})
+  { x \in Cells(c) : /\ x[1].cert = "valid" \/ (LibBackendTLS(c, x[1]) /\ CReplyOK(x[1]))
+                     /\ x[1].hdrs = << >> \/ x[1].scheme = "wss" \/ x[1].hdrs[1].v = "other.example.test" }
+  \cup (IF WithHist THEN { x \in Hist(c) : LibBackendTLS(c, x[2]) \/ x[2].cert = "valid" } \cup Hist2(c) ELSE {})
 =============================================================================
